@@ -313,9 +313,9 @@ theorem groupBy_eq (fields : List Bytes) (xs : List Rec) :
 
 theorem groupLike_eq (xs : List Rec) :
     Verbs.groupLike.run xs =
-      (dkeys (fun r => some (Split.join [44] r.keys)) xs).flatMap
-        (grp (fun r => some (Split.join [44] r.keys)) xs) := by
-  have h := group_runFrom (fun r => some (Split.join [44] r.keys)) [] [] xs (ginv_init _)
+      (dkeys (fun r => some (joinKey r.keys)) xs).flatMap
+        (grp (fun r => some (joinKey r.keys)) xs) := by
+  have h := group_runFrom (fun r => some (joinKey r.keys)) [] [] xs (ginv_init _)
   simp only [List.nil_append] at h
   exact h
 
@@ -349,6 +349,67 @@ theorem filterHist_partition (p q : List Rec → Rec → Bool) (hdisj : ∀ pre 
     · have hp' : p pre r = false := Bool.eq_false_iff.mpr hp
       have hq' : q pre r = false := Bool.eq_false_iff.mpr hq
       simp only [hp', hq', Bool.or_false, Bool.false_eq_true, if_false, List.length_nil]; omega
+
+/-! ### the grouping key is injective -/
+
+/-- Decoder of `joinKey`: `cur` is the component being read. -/
+def decKey : Bytes → Bytes → List Bytes
+  | [], cur => [cur]
+  | c :: rest, cur =>
+    if c = 92 then
+      match rest with
+      | d :: rest' => decKey rest' (cur ++ [d])
+      | [] => [cur ++ [92]]
+    else if c = 44 then cur :: decKey rest []
+    else decKey rest (cur ++ [c])
+termination_by s => s.length
+
+theorem dec_esc (v tail cur : Bytes) : decKey (escComp v ++ tail) cur = decKey tail (cur ++ v) := by
+  induction v generalizing cur with
+  | nil => simp [escComp]
+  | cons c v ih =>
+    unfold escComp
+    by_cases h : c = 44 ∨ c = 92
+    · simp only [h, if_true, List.cons_append]
+      rw [decKey]
+      simp only [if_true]
+      rw [ih]; simp
+    · simp only [h, if_false, List.cons_append]
+      have h1 : c ≠ 92 := fun e => h (Or.inr e)
+      have h2 : c ≠ 44 := fun e => h (Or.inl e)
+      conv => lhs; rw [decKey.eq_def]
+      simp only [h1, h2, if_false]
+      rw [ih]; simp
+
+theorem dec_joinKey (v : Bytes) (vs : List Bytes) : decKey (joinKey (v :: vs)) [] = v :: vs := by
+  induction vs generalizing v with
+  | nil =>
+    have := dec_esc v [] []
+    simp only [List.append_nil, List.nil_append] at this
+    simp [joinKey, this, decKey]
+  | cons w rest ih =>
+    simp only [joinKey]
+    rw [dec_esc]
+    conv => lhs; rw [decKey.eq_def]
+    simp [ih]
+
+
+theorem mapM_length {α β} (f : α → Option β) : ∀ (l : List α) (r : List β), l.mapM f = some r → r.length = l.length := by
+  intro l
+  induction l with
+  | nil => intro r h; simp at h; subst h; rfl
+  | cons x xs ih =>
+    intro r h
+    simp only [List.mapM_cons] at h
+    cases hx : f x with
+    | none => simp [hx] at h
+    | some y =>
+      cases hxs : xs.mapM f with
+      | none => simp [hx, hxs] at h
+      | some ys =>
+        simp [hx, hxs] at h
+        subst h
+        simp [ih ys hxs]
 
 end Lemmas.C11
 end Miller
